@@ -319,6 +319,12 @@ func (it *Iterator) Seek(key []byte) {
 	// Move to the next node at level 0, which should be >= target
 	it.current = current.getNext(0)
 
+	// A writer may have linked smaller keys behind `current` since the descent passed it:
+	// the successor read above can then still be below the target, so keep moving right
+	for it.current != nil && it.current.entry.compare(key) < 0 {
+		it.current = it.current.getNext(0)
+	}
+
 	// Skip nodes that are not visible in our snapshot
 	for it.current != nil && it.current != it.list.head && !it.isVisible(it.current) {
 		it.current = it.current.getNext(0)
